@@ -193,7 +193,56 @@ def run_scalar(ctx, p):
     ctx.nontrivial(name, want, np.round(np.asarray(x, dtype=float), 9).tolist())
 
 
-RUNNERS = {'ctor': run_ctor, 'pred': run_pred, 'scalar': run_scalar}
+def member_ok(cname, x):
+    """is array x a value an object of class cname may hold?  shape, finiteness and (poses, unit quaternion) group membership"""
+    if not isinstance(x, np.ndarray) or x.shape != SHAPES[cname] or x.dtype == object or not np.all(np.isfinite(x)):
+        return False
+    if cname in ('SO2', 'SO3', 'SE2', 'SE3'):
+        return dist(cname, x) <= BAND
+    if cname == 'UnitQuaternion':
+        return abs(float(np.linalg.norm(x)) - 1) <= BAND
+    return True
+
+
+def run_objarg(ctx, p):
+    """a library object (of any class, holding 1 or 2 values), a list of them, or a degenerate numeric argument handed to a
+    constructor: either an exception, or an object every element of which is a member (documented conversions)"""
+    sm = S()
+    cname, what_ = p['cls'], p['what']
+    C = getattr(sm, cname)
+    sig = dict(api=cname, arg=what_, form=p['form'])
+    try:
+        if what_ == 'object':
+            from .c10_list import single, from_list
+            d = p['other']
+            arrs = [np.asarray(a, dtype=np.float64) for a in p['arrs']]
+            obj = single(d, arrs[0])[0] if len(arrs) == 1 else from_list(d, arrs)
+            sig['other'] = d
+            sig['values'] = len(arrs)
+        else:
+            obj = np.asarray(p['vec'], dtype=np.float64)       # degenerate numeric argument (zero / tiny / non-finite)
+            sig['defect'] = p['defect']
+        arg = obj if p['form'] == 'bare' else [obj]
+    except Exception as e:
+        ctx.harness_errors.append('objarg operand construction failed: %r' % (e,))
+        return
+    try:
+        X = C(arg)
+    except Exception:
+        ctx.ok('ctor.reject')
+        ctx.cell('objarg', cname, what_, p.get('other', p.get('defect')), p['form'], 'raises')
+        ctx.nontrivial('objarg', cname, p.get('other', p.get('defect')), p['form'], len(p.get('arrs', [])))
+        return
+    d_ = getattr(X, 'data', None)
+    ok = isinstance(d_, list) and all(member_ok(cname, x) for x in d_)
+    ctx.judge('ctor.reject', ok, dict(sig, kind='object_holds_nonmember'),
+              lambda: '%s(%s) returned an object holding %s' % (cname, core.short(arg, 200) if what_ != 'object' else '%s%s holding %d value(s)' % (
+                  '[' if p['form'] != 'bare' else '', p['other'], len(p['arrs'])), core.short(d_, 300)))
+    ctx.cell('objarg', cname, what_, p.get('other', p.get('defect')), p['form'], 'accepts')
+    ctx.nontrivial('objarg', cname, p.get('other', p.get('defect')), p['form'], len(p.get('arrs', [])))
+
+
+RUNNERS = {'ctor': run_ctor, 'pred': run_pred, 'scalar': run_scalar, 'objarg': run_objarg}
 
 
 def REACH():
@@ -418,3 +467,28 @@ def run(ctx):
                                          defect='none' if valid else defect, src='ref'))
     for _ in range(ctx.scale(3500, 50000)):
         drive(RUNNERS, ctx, 'scalar', scalar_case(rng))
+    # library objects and degenerate vectors as constructor arguments: every (class, other class) pair, 1 and 2 values, bare / in a list
+    from .c10_list import element as el10, CLASSES as C10, EXTRA as X10
+    k = 0
+    for cname in SHAPES:
+        for d in C10 + X10:
+            for nvals in (1, 2):
+                for form in ('bare', 'list'):
+                    k += 1
+                    if not ctx.mine(k):
+                        continue
+                    for _ in range(1 if ctx.tier == 'quick' else 12):
+                        drive(RUNNERS, ctx, 'objarg', dict(cls=cname, what='object', other=d, form=form, arrs=[el10(rng, d) for _ in range(nvals)]))
+        n = SHAPES[cname][0] if len(SHAPES[cname]) == 1 else None
+        if n is None or cname != 'UnitQuaternion':
+            continue            # R^4 and the twist vector spaces have no membership condition; a unit quaternion has: norm 1
+        for defect in ('zero', 'tiny', 'nan', 'inf'):
+            for form in ('bare', 'list'):
+                k += 1
+                if not ctx.mine(k):
+                    continue
+                for _ in range(2 if ctx.tier == 'quick' else 24):
+                    v = np.zeros(n) if defect == 'zero' else rng.normal(size=n) * gen.logu(rng, 1e-30, 1e-17) if defect == 'tiny' else gen.vec(rng, n, 1e-2, 1e2)
+                    if defect in ('nan', 'inf'):
+                        v[rng.integers(n)] = np.nan if defect == 'nan' else gen.sign(rng) * np.inf
+                    drive(RUNNERS, ctx, 'objarg', dict(cls=cname, what='vector', defect=defect, form=form, vec=v))
